@@ -93,3 +93,54 @@ func TestRegressNilKeyAffected(t *testing.T) {
 	evid.ReportKnown(t, "C14", "C14-nil-key-counted-as-match", r.c14 != "", r.c14, c)
 	evid.For("C14").Case(true, evid.Hash("regress-nilkey"), "regress")
 }
+
+// TestC13Backlog: one writer produces a burst of several hundred mutations while the
+// index Key function is slow, so the index task queue (capacity 256) fills up and the
+// writer blocks on it; after Flush every index must still equal the scan of the store.
+// (One writer only: two or more writers blocked on a full queue can hang inside the
+// third-party taskqueue package, which is not go-res's code.)
+func TestC13Backlog(t *testing.T) {
+	ev := evid.For("C13")
+	rapid.Check(t, func(rt *rapid.T) {
+		cfg := Cfg{Prefix: rapid.SampledFrom([]string{"", "pfx"}).Draw(rt, "prefix"), Indexes: []string{"ia", "ib"}, SlowKey: 2}
+		n := rapid.IntRange(280, 420).Draw(rt, "burst")
+		m, err := newMachine(cfg)
+		if err != nil {
+			rt.Fatalf("VERIF-INCONCLUSIVE: %v", err)
+		}
+		defer m.cleanup()
+		model := map[string]Rec{}
+		for i := 0; i < n; i++ {
+			op := Op{ID: rapid.SampledFrom(idAlpha[:3]).Draw(rt, "id"), A: rapid.SampledFrom([]string{"a", "b", "ab", "aa", "ba", "~nil", ""}).Draw(rt, "a"), B: rapid.SampledFrom([]string{"a", "b"}).Draw(rt, "b")}
+			_, exists := model[op.ID]
+			switch {
+			case !exists:
+				op.K = "create"
+			case rapid.IntRange(0, 9).Draw(rt, "del") == 0:
+				op.K = "delete"
+			default:
+				op.K = "update"
+			}
+			if err := m.mutate(op); err != nil {
+				rt.Fatalf("mutation %d %+v failed: %v", i, op, err)
+			}
+			if op.K == "delete" {
+				delete(model, op.ID)
+			} else {
+				model[op.ID] = Rec{A: op.A, B: op.B}
+			}
+		}
+		m.qs.Flush()
+		for _, idx := range cfg.Indexes {
+			for _, rev := range []bool{false, true} {
+				q := Query{Index: idx, Limit: -1, Reverse: rev}
+				got, err := m.query(q)
+				want := refQuery(model, q)
+				if err != nil || !sameIDs(got, want) {
+					rt.Fatalf("after a burst of %d mutations (index queue full) and Flush, index %s (reverse=%v) returns %q (%v), the scan of the store gives %q (store: %s)", n, idx, rev, got, err, want, describeModel(model))
+				}
+			}
+		}
+		ev.Case(true, evid.Hash("backlog", n, cfg.Prefix), "backlog")
+	})
+}
